@@ -25,7 +25,7 @@ ADD, IADD, GETITEM = ExtV("_operator.add"), ExtV("_operator.iadd"), ExtV("_opera
 COUNTERPART = {
     "torch.add": "add", F + "conv1d": "conv1d", F + "cross_entropy": "cross_entropy", F + "dropout": "dropout",
     F + "embedding": "embedding", F + "gelu": "gelu", F + "layer_norm": "layer_norm", F + "linear": "linear",
-    "torch.matmul": "matmul", F + "mse_loss": "mse_loss", F + "rms_norm": "rms_norm",
+    "torch.matmul": "matmul", "operator.matmul": "matmul", F + "mse_loss": "mse_loss", F + "rms_norm": "rms_norm",
     F + "scaled_dot_product_attention": "scaled_dot_product_attention", F + "silu": "silu", F + "softmax": "softmax",
 }
 SELF_ATTENTION = {F + "softmax", F + "scaled_dot_product_attention", "unit_scaling.functional.softmax", "unit_scaling.functional.scaled_dot_product_attention"}
@@ -91,6 +91,16 @@ def scenarios() -> Dict[str, Tuple[Scenario, Dict[Any, Any]]]:
         ("h", "call_function", E(F + "linear"), ("%x", "%w1", None), {}),
         ("a", "call_function", E(F + "gelu"), ("%h",), {}),
         ("o", "call_function", E(F + "linear"), ("%a", "%w2"), {"bias": None}),
+        ("r", "call_function", ADD, ("%x", "%o"), {}),
+        ("output", "output", "output", (("%r",),), {}),
+    ], {})
+    # the operator spelling of a mapped op: `h @ w` is traced as the builtin operator.matmul (as `a + b` is operator.add)
+    S["matmul written with the @ operator inside a residual branch"] = ([
+        ("x", "placeholder", "x", (), {}),
+        ("w1", "get_attr", "w1", (), {}), ("w2", "get_attr", "w2", (), {}),
+        ("h", "call_function", E("_operator.matmul"), ("%x", "%w1"), {}),
+        ("a", "call_function", E(F + "gelu"), ("%h",), {}),
+        ("o", "call_function", E("_operator.matmul"), ("%a", "%w2"), {}),
         ("r", "call_function", ADD, ("%x", "%o"), {}),
         ("output", "output", "output", (("%r",),), {}),
     ], {})
@@ -312,8 +322,8 @@ def reference(it: Interp, sc: Scenario, user_map: Dict[Any, Any]) -> Any:
         for k, v in user_map.items():
             if k is tgt or (isinstance(k, ExtV) and isinstance(tgt, ExtV) and k.name == tgt.name):
                 return U[v[2:]] if isinstance(v, str) and v.startswith("U:") else v
-        if isinstance(tgt, ExtV) and tgt.name in COUNTERPART:
-            return U[COUNTERPART[tgt.name]]
+        if isinstance(tgt, ExtV) and tkey(tgt) in COUNTERPART:
+            return U[COUNTERPART[tkey(tgt)]]
         return tgt
 
     def branch_targets(add: str) -> Set[str]:
